@@ -23,7 +23,10 @@ def run(ctx):
     fam = designs.family(ctx.tier, ctx.seed) + [{'name': 'reconverge', 'params': {'w': 2}},
                                                 {'name': 'reconverge', 'params': {'w': 3}},
                                                 {'name': 'two_mems', 'params': {'aw': 2}},
-                                                {'name': 'two_mems', 'params': {'aw': 1}}]
+                                                {'name': 'two_mems', 'params': {'aw': 1}},
+                                                {'name': 'mem_loops', 'params': {'nports': 1}},
+                                                {'name': 'mem_loops', 'params': {'nports': 2}},
+                                                {'name': 'mem_loops', 'params': {'nports': 3}}]
     if ctx.tier != 'quick':
         fam += [{'name': 'rand_design', 'params': {'seed': 5000 + s}} for s in range(150)]
     tasks = []
